@@ -54,7 +54,7 @@ fn shape_tag(d: &D) -> Option<usize> {
     d.parts.iter().flatten().map(|v| f64::from_bits(v[0])).filter(|x| *x < 1_000_000.0).map(|x| x as usize).next()
 }
 
-fn good_row(call: usize) -> Record {
+pub fn good_row(call: usize) -> Record {
     let mut r = Record::default();
     r.insert("IDX".to_string(), FieldValue::Numeric(Some(call as f64)));
     r.insert("NAME".to_string(), FieldValue::Character(Some(format!("row{}", call))));
@@ -75,7 +75,7 @@ fn row_for(letter: u8, call: usize) -> Record {
     r
 }
 
-fn row_tag(r: &Record) -> Option<usize> {
+pub fn row_tag(r: &Record) -> Option<usize> {
     match r.get("IDX") {
         Some(FieldValue::Numeric(Some(v))) => Some(*v as usize),
         _ => None,
@@ -194,11 +194,13 @@ fn judge(t: i32, word: &[u8], route: &str, out: &Outcome, read: &[(&str, Pairs)]
         };
         // a reader used twice may hand out the whole file or what was left: C08 only demands that
         // whatever comes back is in order and pairs shape i with row i (C15 decides which)
-        let rest: Vec<(Option<usize>, Option<usize>)> = want_all.iter().skip(1).cloned().collect();
+        rep.count("read_backs_of_a_reader_used_more_than_once", if rname.ends_with("then read()") { 1 } else { 0 });
         match got {
             Err(e) => rep.violation(&format!("pairing:{}:error", rname), case, detail(format!("{} failed: {}", rname, e))),
             Ok(p) => {
-                if rname.ends_with("then read()") && *p == rest {
+                // a reader used more than once may hand out the whole file or a tail of it: any
+                // contiguous tail of the written pairs keeps shape i with row i
+                if rname.ends_with("then read()") && p.len() <= want_all.len() && *p == want_all[want_all.len() - p.len()..] {
                     continue;
                 }
                 if *p != want {
@@ -265,6 +267,17 @@ fn run_cursor(t: i32, other: i32, word: &[u8], seed: u64, case: &str, rep: &mut 
         };
         let r9 = pairs_of(mkn().and_then(twice));
         let r10 = pairs_of(mk().and_then(twice));
+        // seek(k), one pair through the iterator, seek(k) again, then everything
+        let seek_twice = |mut r: Reader<Cursor<Vec<u8>>, Cursor<Vec<u8>>>, k: usize| -> Result<Vec<(Shape, Record)>, Error> {
+            r.seek(k)?;
+            if let Some(x) = r.iter_shapes_and_records().next() {
+                x?;
+            }
+            r.seek(k)?;
+            r.read()
+        };
+        let r11 = pairs_of(mk().and_then(|r| seek_twice(r, 1)));
+        let r12 = pairs_of(mk().and_then(|r| seek_twice(r, 0)));
         vec![
             ("Reader::read", r1),
             ("Reader::iter_shapes_and_records", r2),
@@ -276,6 +289,8 @@ fn run_cursor(t: i32, other: i32, word: &[u8], seed: u64, case: &str, rep: &mut 
             ("no-index:iter_shapes_and_records", r8),
             ("no-index:one pair iterated, then read()", r9),
             ("one pair iterated, then read()", r10),
+            ("seek(1), one pair, seek(1), then read()", r11),
+            ("seek(0), one pair, seek(0), then read()", r12),
         ]
     });
     match read {
